@@ -6,6 +6,7 @@ import (
 	"math/big"
 	"sort"
 	"strings"
+	"sync"
 	"testing"
 
 	"github.com/ElrondNetwork/elrond-go/config"
@@ -44,8 +45,48 @@ type verifSBConfig struct {
 	CheckpointMaxSize uint64 // checkpoint hashes holder capacity in bytes (small => Commit forces checkpoints)
 }
 
+// verifSBFlakyDB is the main trie database handed to the storage manager: the memory database plus
+// the possibility to fail the read of one chosen key exactly once (a transient storage error). The
+// harness reads through MainDB directly and is never affected.
+type verifSBFlakyDB struct {
+	*memorydb.DB
+	mut     sync.Mutex
+	failKey []byte
+	fired   int
+}
+
+// Get fails once for the armed key, otherwise reads the memory database.
+func (f *verifSBFlakyDB) Get(key []byte) ([]byte, error) {
+	f.mut.Lock()
+	fail := len(f.failKey) > 0 && bytes.Equal(key, f.failKey)
+	if fail {
+		f.failKey = nil
+		f.fired++
+	}
+	f.mut.Unlock()
+	if fail {
+		return nil, fmt.Errorf("verif: transient storage read error")
+	}
+	return f.DB.Get(key)
+}
+
+// Arm makes the next read of key fail; Disarm removes the fault and reports whether it fired.
+func (f *verifSBFlakyDB) Arm(key []byte) {
+	f.mut.Lock()
+	f.failKey, f.fired = append([]byte(nil), key...), 0
+	f.mut.Unlock()
+}
+
+func (f *verifSBFlakyDB) Disarm() bool {
+	f.mut.Lock()
+	defer f.mut.Unlock()
+	f.failKey = nil
+	return f.fired > 0
+}
+
 type verifSBFixture struct {
 	Cfg    verifSBConfig
+	Flaky  *verifSBFlakyDB
 	Adb    *state.AccountsDB
 	Tsm    data.StorageManager
 	MainDB *memorydb.DB
@@ -68,8 +109,9 @@ func verifSBNewFixture(cfg verifSBConfig) (*verifSBFixture, error) {
 		MaxSnapshots:       cfg.MaxSnapshots,
 	}
 	db := memorydb.New()
+	flaky := &verifSBFlakyDB{DB: db}
 	tsm, err := trie.NewTrieStorageManager(trie.NewTrieStorageManagerArgs{
-		DB:          db,
+		DB:          flaky,
 		Marshalizer: marsh,
 		Hasher:      hasher,
 		SnapshotDbConfig: config.DBConfig{
@@ -101,7 +143,7 @@ func verifSBNewFixture(cfg verifSBConfig) (*verifSBFixture, error) {
 	if err != nil {
 		return nil, err
 	}
-	return &verifSBFixture{Cfg: cfg, Adb: adb, Tsm: tsm, MainDB: db, Marsh: marsh, Hasher: hasher}, nil
+	return &verifSBFixture{Cfg: cfg, Flaky: flaky, Adb: adb, Tsm: tsm, MainDB: db, Marsh: marsh, Hasher: hasher}, nil
 }
 
 // Close stops the storage manager goroutine and closes the databases.
@@ -198,6 +240,7 @@ func verifSBDiff(want, got verifSBState) string {
 type verifSBRead struct {
 	State  verifSBState
 	Hashes map[string]struct{} // every node hash of the main trie and of every data trie
+	Main   []string            // node hashes of the main trie only, sorted
 }
 
 // verifSBReadRoot rebuilds the state with the given root using nothing but db: a storage manager
@@ -233,7 +276,9 @@ func verifSBReadRoot(db data.DBWriteCacher, marsh marshal.Marshalizer, hasher ha
 	}
 	for _, h := range hashes {
 		res.Hashes[string(h)] = struct{}{}
+		res.Main = append(res.Main, string(h))
 	}
+	sort.Strings(res.Main)
 	leaves, err := adb.GetAllLeaves(root)
 	if err != nil {
 		return nil, fmt.Errorf("GetAllLeaves(%x): %v", root[:4], err)
@@ -756,7 +801,8 @@ func verifSBKnown(key string) bool {
 }
 
 type verifSBRoot struct {
-	seq    int // order of first commit
+	seq    int      // order of first commit
+	main   []string // node hashes of the main trie, sorted
 	root   []byte
 	model  verifSBState
 	hashes map[string]struct{}
@@ -840,7 +886,7 @@ func (s *verifSBSim) record(root []byte) *verifSBRoot {
 	}
 	read, err := verifSBReadRoot(s.fx.MainDB, s.fx.Marsh, s.fx.Hasher, root)
 	if err != nil && s.asyncBlocking {
-		s.rep.Fatalf("fixture: root %x just committed cannot be read back: %v; history: %s", root[:4], err, s.history())
+		s.asyncDamage("root %x just committed cannot be read back: %v", root[:4], err)
 	}
 	if err != nil {
 		s.rep.Violation("C09:safety:fresh-root-unreadable", "root %x just committed cannot be read back: %v; history: %s", root[:4], err, s.history())
@@ -849,7 +895,7 @@ func (s *verifSBSim) record(root []byte) *verifSBRoot {
 		// a committed state that differs from the model is not a pruning matter: fixture problem
 		s.rep.Fatalf("fixture: committed state differs from the model: %s; history: %s", d, s.history())
 	}
-	r := &verifSBRoot{seq: len(s.known), root: verifSBCopy(root), model: s.cur.clone(), hashes: read.Hashes}
+	r := &verifSBRoot{seq: len(s.known), main: read.Main, root: verifSBCopy(root), model: s.cur.clone(), hashes: read.Hashes}
 	s.known[string(root)] = r
 	s.g.remember(s.cur)
 	return r
@@ -1040,7 +1086,7 @@ func (s *verifSBSim) execBlock(blk verifSBBlock, what string) {
 		// otherwise the harness applied something inapplicable
 		s.cur = before
 		if s.asyncBlocking {
-			s.rep.Fatalf("fixture: %s failed: %v; history: %s", what, err, s.history())
+			s.asyncDamage("%s failed: %v", what, err)
 		}
 		s.checkLive(what + " (failed: " + err.Error() + ")")
 		s.rep.Fatalf("fixture: %s failed: %v; history: %s", what, err, s.history())
@@ -1075,6 +1121,18 @@ func (s *verifSBSim) execBlock(blk verifSBBlock, what string) {
 	s.chain = append(s.chain, r)
 	s.blocks = append(s.blocks, blk)
 	s.logf("%s %x: %v", what, root[:2], blk)
+}
+
+// asyncDamage is called in the C10 mode when the main trie database turns out to have lost nodes of the
+// current chain. C10 does not judge pruning; if the history contains a rollback issued while a snapshot
+// was running, the damage is the known pruning finding verifSBKeyStaleCancel (C09): the case ends as
+// excluded under that key. Otherwise it is an unexplained fixture failure (inconclusive).
+func (s *verifSBSim) asyncDamage(format string, args ...interface{}) {
+	msg := fmt.Sprintf(format, args...)
+	if s.rollbackWhileBlocked {
+		s.rep.Violation(verifSBKeyStaleCancel, "main database damaged while producing traffic for C10: %s; history: %s", msg, s.history())
+	}
+	s.rep.Fatalf("fixture: %s; history: %s", msg, s.history())
 }
 
 // afterPruneTrie: a PruneTrie call made while pruning is not blocked has executed every buffered
@@ -1114,7 +1172,7 @@ func (s *verifSBSim) doRollback() {
 	// RevertStateToBlock(prevHeader): shardblock.go:330 / metablock.go:1490
 	if errRec := s.fx.Adb.RecreateTrie(verifSBCopy(prevRoot)); errRec != nil {
 		if s.asyncBlocking {
-			s.rep.Fatalf("fixture: rollback: RecreateTrie(%x) failed: %v; history: %s", prevRoot[:4], errRec, s.history())
+			s.asyncDamage("rollback: RecreateTrie(%x) failed: %v", prevRoot[:4], errRec)
 		}
 		s.rep.Violation(s.safetyKey(s.chain[last-1], "C09:safety:rollback-recreate-failed"), "rollback: RecreateTrie(%x) of the previous block's root failed: %v; history: %s", prevRoot[:4], errRec, s.history())
 		return
